@@ -21,8 +21,9 @@ import (
 )
 
 type A struct {
-	X int    `json:"x"`
-	S string `json:"s"`
+	X int               `json:"x"`
+	S string            `json:"s,omitempty"`
+	M map[string]string `json:"m,omitempty"`
 }
 type B struct {
 	Y string `json:"y"`
@@ -53,7 +54,7 @@ func jsonM(gen int) cqrs.JSONMarshaler { return cqrs.JSONMarshaler{GenerateName:
 func valuesOf(t string) []any {
 	switch t {
 	case "A":
-		return []any{&A{}, &A{X: 7, S: "é\"\n"}, &A{X: -1, S: "bad"}}
+		return []any{&A{X: 7, S: "é\"\n", M: map[string]string{"k": "v"}}, &A{}, &A{X: -1, S: "bad"}}
 	case "B":
 		return []any{&B{Y: ""}, &B{Y: "bad"}}
 	case "C":
